@@ -238,6 +238,21 @@ def run(ck, replay=None):
                 n = rng.choice([2, 3])
                 events.append(stack_event(darsia, rng, tid, n, k, timekind, tuple(rng.randint(1, 3) for _ in range(n)), use_append))
                 nstack += 1
+    # ---- extension: whole-library sessions (time bookkeeping, assembly, metadata well-formedness) against Session.tla
+    from checks import session as sess
+    ck.sany("MC_Session", "Trace_Session")
+    rs = ck.model_check("MC_Session", "MC_Session.cfg", workers=4)
+    sprogs = [p[1] for p in rs.printed("PROG")]
+    ssel = rng.sample(sprogs, min(len(sprogs), 150 if quick else 3000))
+    sevents = []
+    for i, pr in enumerate(ssel):
+        sevents += sess.run_program(darsia, rng, f"sess{i}", pr)
+    sbad = ck.validate("Trace_Session", "Trace.cfg", sevents, chunk=800)
+    for b in sbad:
+        e = b["event"]
+        ck.violation(f"C02:Session:{b['clause']}:{e['op']}", f"session step {e['op']} violates {b['clause']}", {k: v for k, v in e.items() if k in ("op", "arg", "before", "result", "error")})
+    ck.cov["session_programs"] = len(ssel)
+    ck.cov["session_steps"] = len(sevents)
     bad = ck.validate("Trace_ImageOps", "Trace.cfg", events, weight=lambda e: 5 + len(e.get("child", {}).get("tags", [])), budget=40000)
     firsts = {}
     for b in bad:
